@@ -37,7 +37,7 @@ func VerifC35Emit() {
 	member := idx >= 0 && idx < n
 	if len(calls) > 0 {
 		vrt.Assert(member, "emission is invoked only by a node inside the alphabet range")
-		vrt.Assert(calls[0].Kind == "invoke" && calls[0].Method == "emit" && calls[0].Contract == (util.Uint160{byte(0xa0 + idx)}), "the node invokes emit of its own alphabet contract")
+		vrt.Assert(calls[0].Method == "emit" && calls[0].Contract == (util.Uint160{byte(0xa0 + idx)}), "the node invokes emit of its own alphabet contract")
 		vrt.Reach("emitted")
 	} else {
 		vrt.Assert(!member, "an alphabet member emits")
